@@ -578,6 +578,17 @@ Proof.
   eapply Forall_forall in HPa; [|exact Hin]. exact HPa.
 Qed.
 
+(* a search on an optimizer whose futures list still holds what an aborted search left:
+   thanks to the reset it reports only its own submissions, at most n of them *)
+Lemma par_search_own_trials leftover n k st0 status st trace k' :
+  par_search T mts get_setting run sm pre_dispatch sched true leftover n k st0 = (status, st, trace, k') ->
+  k' - k <= n /\ length trace <= k' - k /\
+  replay st0 trace = Some st /\
+  NoDup (ids T trace) /\ (forall id, In id (ids T trace) -> k <= id < k') /\
+  Forall (paired T run) trace /\
+  Forall (fun e => submitted_setting (e_id e) (e_setting e)) trace.
+Proof. unfold par_search. apply par_safety. Qed.
+
 Lemma par_inv n k step status st trace k' :
   par n k step init_state [] [] = (status, st, trace, k') -> inv T trace st.
 Proof. intros H. apply par_safety in H. apply (inv_replay T mts), H. Qed.
